@@ -172,9 +172,12 @@ def load_theory_cache(filename, username="master"):
     finally:
         theory.thy = prev_thy
 
-    # Load all imported theories
+    # Load all imported theories. The cache entry is replaced only after
+    # the whole file has been parsed, so that an interrupted load leaves
+    # no partial content behind.
     depend_list = get_import_order(cache['imports'], username)
 
+    content = []
     with theory.fresh_theory():
         for prev_name in depend_list:
             prev_cache = load_theory_cache(prev_name, username)
@@ -183,12 +186,10 @@ def load_theory_cache(filename, username="master"):
                     theory.thy.unchecked_extend(item.get_extension())
 
         # Use this theory to parse the content of current theory
-        cache['timestamp'] = timestamp
         data = load_json_data(filename, username)
-        cache['content'] = []
         for index, item in enumerate(data['content']):
             item = items.parse_item(item)
-            cache['content'].append(item)
+            content.append(item)
             if item.error is None:
                 exts = item.get_extension()
                 theory.thy.unchecked_extend(exts)
@@ -199,6 +200,8 @@ def load_theory_cache(filename, username="master"):
                         name = ext.name
                     item_index[username][(ext.ty, name)] = (filename, timestamp, index)
 
+    cache['content'] = content
+    cache['timestamp'] = timestamp
     return cache
 
 def query_item_index(username, filename, ext_ty, name):
